@@ -97,14 +97,14 @@ def sk_chain(env, u, eps=None, overall="closed"):
     em = env.expression_manager
     p = _mk(env)
     f = _bools(env, p, ["x", "y", "z"])
-    a = _dur(env, u, "a", 1, 16)
+    a = _dur(env, u, "a", 0, 16)
     a.add_effect(StartTiming(), f["x"], em.TRUE())
     iv = dict(closed=ClosedTimeInterval, open=OpenTimeInterval, lopen=LeftOpenTimeInterval,
               ropen=RightOpenTimeInterval)[overall](StartTiming(), EndTiming())
     a.add_condition(iv, em.Not(f["y"]))
     a.add_effect(EndTiming(), f["x"], em.FALSE())
     a.add_effect(EndTiming(), f["z"], em.TRUE())
-    b = _dur(env, u, "b", 1, 16)
+    b = _dur(env, u, "b", 0, 16)
     b.add_condition(StartTiming(), f["x"])
     b.add_effect(EndTiming(), f["y"], em.TRUE())
     p.add_action(a)
@@ -112,6 +112,31 @@ def sk_chain(env, u, eps=None, overall="closed"):
     p.add_goal(f["y"])
     p.add_goal(f["z"])
     return dict(problem=p, insts=[(a, ()), (b, ())], defaults=dict(s0=0, d0=8, s1=4, d1=6))
+
+
+def sk_four(env, u, eps=None):
+    """two producers p1,p2 ([start] x:=T ; [end] x:=F) and two consumers (over-all x ; [end] y:=T / z:=T)."""
+    from unified_planning.model import ClosedTimeInterval, EndTiming, StartTiming
+
+    em = env.expression_manager
+    p = _mk(env)
+    f = _bools(env, p, ["x", "y", "z"])
+    a = _dur(env, u, "a", 1, 24)
+    a.add_condition(StartTiming(), em.Not(f["x"]))
+    a.add_effect(StartTiming(), f["x"], em.TRUE())
+    a.add_effect(EndTiming(), f["x"], em.FALSE())
+    b = _dur(env, u, "b", 1, 12)
+    b.add_condition(ClosedTimeInterval(StartTiming(), EndTiming()), f["x"])
+    b.add_effect(EndTiming(), f["y"], em.TRUE())
+    c = _dur(env, u, "c", 1, 12)
+    c.add_condition(ClosedTimeInterval(StartTiming(), EndTiming()), f["x"])
+    c.add_condition(StartTiming(), f["y"])
+    c.add_effect(EndTiming(), f["z"], em.TRUE())
+    for act in (a, b, c):
+        p.add_action(act)
+    p.add_goal(f["z"])
+    p.add_goal(em.Not(f["x"]))
+    return dict(problem=p, insts=[(a, ()), (b, ()), (a, ()), (c, ())], defaults=dict(s0=0, d0=6, s1=1, d1=3, s2=8, d2=6, s3=9, d3=3))
 
 
 def sk_same2(env, u, eps=None):
@@ -270,7 +295,7 @@ def sk_three(env, u, eps=None):
 
 
 SKELETONS = dict(chain=sk_chain, same2=sk_same2, inst=sk_inst, mixed=sk_mixed, timed=sk_timed, params=sk_params,
-                 interm=sk_interm, three=sk_three)
+                 interm=sk_interm, three=sk_three, four=sk_four)
 
 
 # --------------------------------------------------------------------------------------------
@@ -428,7 +453,7 @@ def h_env(ctx, sk):
     ctx.witness("nonglobal-env")
 
 
-def _sh(name, sk, sym, tier, vals=None, eps=None, variant=None, den=1):
+def _sh(name, sk, sym, tier, vals=None, eps=None, variant=None, den=1, engine=None):
     kw = dict(sk=sk, sym=sym, den=den)
     if vals:
         kw["vals"] = vals
@@ -436,43 +461,69 @@ def _sh(name, sk, sym, tier, vals=None, eps=None, variant=None, den=1):
         kw["eps"] = eps
     if variant:
         kw["variant"] = variant
-    return dict(name=name, fn="h_roundtrip", kwargs=kw, budget=100 if tier == "quick" else 1500, per_path=60)
+    d = dict(name=name, fn="h_roundtrip", kwargs=kw, budget=100 if tier == "quick" else 1500, per_path=60)
+    if engine:
+        d["engine"] = engine
+    return d
+
+
+N_INST = dict(chain=(2, 2), same2=(2, 2), inst=(3, 0), mixed=(2, 1), timed=(2, 2), params=(3, 3), interm=(2, 2), three=(3, 3),
+              four=(4, 4))
+
+
+def _all(sk, s_hi, d_hi, s_lo=0, d_lo=0):
+    """every start time and every duration of the skeleton's plan symbolic"""
+    n, nd = N_INST[sk]
+    sym = {f"s{i}": [s_lo, s_hi] for i in range(n)}
+    sym.update({f"d{i}": [d_lo, d_hi] for i in range(nd)})
+    return sym
 
 
 def shards(tier, seed):
     out = []
     Q = tier == "quick"
-    w = (lambda lo, hi: [lo, hi]) if Q else (lambda lo, hi: [max(0, lo - 2), hi + 2])
     E = "1/1000"  # an explicit problem.epsilon: the conversion then skips extract_epsilon()/10 (a symbolic division)
-    out.append(_sh("chain-s1d1", "chain", dict(s1=w(0, 8), d1=w(1, 8)), tier, eps=E))
-    out.append(_sh("chain-noeps-s1", "chain", dict(s1=w(0, 8)), tier))
-    out.append(_sh("chain-d0s1", "chain", dict(d0=w(1, 8), s1=w(0, 8)), tier, eps=E))
-    out.append(_sh("chain-open-s1d1", "chain", dict(s1=w(0, 8), d1=w(1, 8)), tier, eps=E, variant="open"))
-    out.append(_sh("chain-lopen-d0d1", "chain", dict(d0=w(4, 10), d1=w(1, 8)), tier, eps=E, variant="lopen"))
-    out.append(_sh("chain-ropen-s1d1", "chain", dict(s1=w(0, 8), d1=w(1, 8)), tier, eps=E, variant="ropen"))
-    out.append(_sh("chain-eps2-s1d1", "chain", dict(s1=w(0, 8), d1=w(1, 8)), tier, eps="2"))
-    out.append(_sh("chain-den4-s1", "chain", dict(s1=w(0, 8)), tier, eps=E, den=4))
-    out.append(_sh("same2-s1d0", "same2", dict(s1=w(0, 10), d0=w(1, 6)), tier, eps=E))
-    out.append(_sh("inst-s0s1s2", "inst", dict(s0=w(0, 4), s1=w(0, 4), s2=w(0, 4)), tier, eps=E))
-    out.append(_sh("inst-noeps-s1s2", "inst", dict(s1=w(0, 6), s2=w(0, 6)), tier))
-    out.append(_sh("mixed-d0s1", "mixed", dict(d0=w(2, 8), s1=w(0, 10)), tier, eps=E))
-    out.append(_sh("timed-s0d0", "timed", dict(s0=w(2, 12), d0=w(1, 8)), tier, eps=E))
-    out.append(_sh("timed-d0s1", "timed", dict(d0=w(1, 8), s1=w(8, 24)), tier, eps=E))
-    out.append(_sh("params-s1d1", "params", dict(s1=w(0, 6), d1=w(1, 6)), tier, eps=E))
-    out.append(_sh("params-s2d0", "params", dict(s2=w(0, 8), d0=w(1, 6)), tier, eps=E))
-    out.append(_sh("interm-s1d0", "interm", dict(s1=w(0, 10), d0=w(4, 10)), tier, eps=E))
-    out.append(_sh("three-s1s2", "three", dict(s1=w(0, 10), s2=w(2, 14)), tier, eps=E))
-    if not Q:
-        out.append(_sh("chain-s0s1d1", "chain", dict(s0=[0, 4], s1=[0, 10], d1=[1, 10]), tier, eps=E))
-        out.append(_sh("chain-noeps-s1d1", "chain", dict(s1=[0, 10], d1=[1, 10]), tier))
-        out.append(_sh("chain-open-d0s1d1", "chain", dict(d0=[1, 10], s1=[0, 10], d1=[1, 10]), tier, eps=E, variant="open"))
-        out.append(_sh("chain-den4-s1d1", "chain", dict(s1=[0, 10], d1=[1, 10]), tier, eps=E, den=4))
-        out.append(_sh("same2-s1d0d1", "same2", dict(s1=[0, 12], d0=[1, 8], d1=[1, 8]), tier, eps=E))
-        out.append(_sh("three-d0s1s2", "three", dict(d0=[2, 14], s1=[0, 10], s2=[2, 14]), tier, eps=E))
-        out.append(_sh("three-s1d1s2", "three", dict(s1=[0, 10], d1=[1, 8], s2=[2, 14]), tier, eps=E))
-        out.append(_sh("params-s0s1s2", "params", dict(s0=[0, 6], s1=[0, 6], s2=[0, 10]), tier, eps=E))
-        out.append(_sh("timed-s0d0s1", "timed", dict(s0=[2, 12], d0=[1, 8], s1=[8, 24]), tier, eps=E))
-        out.append(_sh("interm-s0s1d0", "interm", dict(s0=[0, 4], s1=[0, 12], d0=[4, 12]), tier, eps=E))
+    S, D = (10, 10) if Q else (40, 40)
+    for v in ("closed", "open", "lopen", "ropen"):
+        out.append(_sh(f"chain-{v}", "chain", _all("chain", S, D), tier, eps=E, variant=v))
+    out.append(_sh("chain-eps2", "chain", _all("chain", S, D), tier, eps="2"))
+    out.append(_sh("chain-eps2-open", "chain", _all("chain", S, D), tier, eps="2", variant="open"))
+    out.append(_sh("chain-eps2-lopen", "chain", _all("chain", S, D), tier, eps="2", variant="lopen"))
+    out.append(_sh("same2", "same2", _all("same2", S, D), tier, eps=E))
+    out.append(_sh("inst", "inst", _all("inst", S, D), tier, eps=E))
+    out.append(_sh("inst-noeps", "inst", _all("inst", S, D), tier))
+    out.append(_sh("inst-eps3", "inst", _all("inst", S, D), tier, eps="3"))
+    out.append(_sh("mixed", "mixed", _all("mixed", S, D), tier, eps=E))
+    out.append(_sh("mixed-noeps", "mixed", _all("mixed", S, D), tier))
+    out.append(_sh("interm", "interm", _all("interm", S, 12 if Q else 40), tier, eps=E))
+    if Q:
+        # epsilon left to the conversion (extract_epsilon()/10 forks on gcds): fewer symbolic numerators
+        out.append(_sh("chain-noeps-s1d1", "chain", dict(s1=[0, S], d1=[0, D]), tier))
+        out.append(_sh("chain-noeps-d0s1", "chain", dict(d0=[0, D], s1=[0, S]), tier))
+        out.append(_sh("same2-noeps-d0s1", "same2", dict(d0=[0, D], s1=[0, S]), tier))
+        out.append(_sh("timed-s0d0s1", "timed", dict(s0=[3, 13], d0=[0, 9], s1=[10, 25]), tier, eps=E))
+        out.append(_sh("timed-s1d1", "timed", dict(s1=[8, 26], d1=[0, 12]), tier, eps=E))
+        out.append(_sh("params-01", "params", dict(s0=[0, 6], d0=[1, 6], s1=[0, 6], d1=[1, 6]), tier, eps=E))
+        out.append(_sh("params-2", "params", dict(d0=[1, 6], s2=[0, 8], d2=[1, 6]), tier, eps=E))
+        out.append(_sh("three-01", "three", dict(d0=[2, 14], s1=[0, 10], d1=[1, 8]), tier, eps=E))
+        out.append(_sh("three-12", "three", dict(s1=[0, 6], s2=[2, 14], d2=[1, 6]), tier, eps=E))
+    else:
+        out.append(_sh("chain-noeps", "chain", _all("chain", S, D), tier))
+        out.append(_sh("same2-noeps", "same2", _all("same2", S, D), tier))
+        out.append(_sh("timed", "timed", dict(s0=[3, 13], d0=[0, 9], s1=[10, 25], d1=[0, 12]), tier, eps=E))
+        out.append(_sh("timed-noeps", "timed", dict(s0=[3, 13], d0=[0, 9], s1=[10, 25]), tier))
+        out.append(_sh("params", "params", _all("params", 8, 6, d_lo=1), tier, eps=E))
+        out.append(_sh("params-noeps", "params", dict(s0=[0, 6], d0=[1, 6], s1=[0, 6], d1=[1, 6]), tier))
+        out.append(_sh("three", "three", dict(_all("three", 14, 8, d_lo=1), d0=[2, 14]), tier, eps=E))
+        out.append(_sh("three-noeps", "three", dict(d0=[2, 14], s1=[0, 10], d1=[1, 8]), tier))
+        out.append(_sh("four", "four", _all("four", 16, 10, d_lo=1), tier, eps=E))
+        out.append(_sh("chain-den4-s1", "chain", dict(s1=[0, 9]), tier, eps=E, den=4))
+        out.append(_sh("chain-den4-d1", "chain", dict(d1=[0, 9]), tier, eps=E, den=4))
+    # genuine quarter-valued times (Fraction(k, 4) normalises through gcd: expensive symbolically): concrete times from a
+    # pool with coinciding and distinct values (direct engine); thorough adds symbolic numerators (above).
+    out.append(_sh("chain-den4-pool", "chain", dict(s1=[0, 9], d1=[0, 9]), tier, den=4, engine="direct"))
+    out.append(_sh("interm-den4-pool", "interm", dict(s1=[0, 10], d0=[4, 10]), tier, den=4, engine="direct"))
+    out.append(_sh("chain-open-noeps-den4-pool", "chain", dict(s1=[0, 9], d1=[0, 9]), tier, den=4, variant="open", engine="direct"))
     out.append(dict(name="env-nonglobal", fn="h_env", kwargs=dict(sk="chain"), budget=60, engine="direct"))
     return out
 
